@@ -136,6 +136,9 @@ HISTORIES = [
     [('create', 'P'), ('create', 'P/Q'), ('append', 'P/Q', b'', 0), ('subscribe', 'P/Q'), ('select', 'P/Q'), ('copy', 1, 'INBOX'), ('move', 1, 'P')],
 ]
 HISTORIES.append([('append', 'INBOX', b'', 0), ('append', 'INBOX', b'\\Seen', 1), ('select', 'INBOX'), ('move', 1, 'INBOX'), ('copy', 2, 'INBOX'), ('status', 'INBOX')])
+# names that share a string prefix without being hierarchy relatives: what is done to one is not done to the other
+HISTORIES.append([('create', 'Work'), ('create', 'Workshop'), ('append', 'Workshop', b'\\Seen', 0), ('subscribe', 'Workshop'), ('rename', 'Work', 'Job'),
+                  ('status', 'Job'), ('status', 'Workshop'), ('append', 'Workshop', b'', 1)])
 THOROUGH_EXTRA = [
     [('append', 'INBOX', b'', i) for i in range(4)] + [('select', 'INBOX'), ('store', 2, b'+FLAGS', b'\\Deleted'), ('expunge',), ('copy', 1, 'INBOX'), ('move', 3, 'INBOX')],
     [('create', 'X'), ('append', 'X', b'', 0), ('rename', 'X', 'Y'), ('create', 'X'), ('append', 'X', b'', 1), ('status', 'X'), ('status', 'Y')],
